@@ -544,6 +544,21 @@ def gen_shape(rng, cx=False):
         if len(shp) >= 3:
             yield case("diagonal", [A(rng, shp, "any", cx), 0, 1, 2])
             yield case("diagonal", [A(rng, shp, "any", cx), 0, -1, -2])
+    # all-equal extents: a rule that mistakes which axes it was given still produces arrays of the right shape
+    for shp in ((3, 3, 3), (2, 2, 2, 2)):
+        r = len(shp)
+        for (a1, a2) in ((0, 1), (1, 0), (1, 2), (2, 1), (0, 2), (-1, -2), (-2, -1), (-1, 0), (0, -1)):
+            yield case("diagonal", [A(rng, shp, "any", cx)], {"axis1": a1, "axis2": a2}, tags=["cube"])
+            yield case("trace", [A(rng, shp, "any", cx)], {"axis1": a1, "axis2": a2}, tags=["cube"])
+        yield case("diagonal", [A(rng, shp, "any", cx), 1, 1, 0], tags=["cube"])
+        yield case("swapaxes", [A(rng, shp, "any", cx), 0, -1], tags=["cube"])
+        yield case("moveaxis", [A(rng, shp, "any", cx), 0, -1], tags=["cube"])
+        yield case("transpose", [A(rng, shp, "any", cx), tuple(range(r))[1:] + (0,)], tags=["cube"])
+        yield case("rollaxis", [A(rng, shp, "any", cx), r - 1, 0], tags=["cube"])
+        yield case("sum", [A(rng, shp, "any", cx)], {"axis": (0, -1)}, tags=["cube"])
+        yield case("cumsum", [A(rng, shp, "any", cx)], {"axis": 1}, tags=["cube"])
+        yield case("flip", [A(rng, shp, "any", cx)], {"axis": (0, 2)}, tags=["cube"])
+        yield case("roll", [A(rng, shp, "any", cx), 1], {"axis": 1}, tags=["cube"])
     for shp in ((3,), (2, 3), (2, 2, 3)):
         yield case("make_diagonal", [A(rng, shp, "any", cx)], {"axis1": -1, "axis2": -2})
         yield case("make_diagonal", [A(rng, shp, "any", cx), 0, -1, -2])
